@@ -1,4 +1,5 @@
 //@@ include prelude.rs
 //@@ include group.rs
 //@@ props ^group_diff_ops$ : C12
+//@@ props ^lemma_c12_ : C12
 fn main() {}
